@@ -18,6 +18,10 @@ TSAN_FLAGS = ['-O1', '-g', '-fsanitize=thread']
 FAST_FLAGS = ['-O2']
 
 
+class TieBroken(Exception):
+    """the harness (or the engine objects it links) does not build from the tree under test: the correspondence cannot be run"""
+
+
 class Lock:
     def __init__(self, name):
         os.makedirs(CACHE, exist_ok=True)
@@ -57,10 +61,36 @@ def run(cmd, **kw):
     return subprocess.run(cmd, stdout=subprocess.PIPE, stderr=subprocess.STDOUT, text=True, **kw)
 
 
+def harness_features():
+    """internals of the engine that the harness reads directly, probed in the source text: a refactoring that removes one of them
+    switches the corresponding part of the harness off (the checks that need it then report their tie as broken) instead of
+    breaking the compilation of the whole harness"""
+    d = os.path.join(REPO, 'engine')
+
+    def has(fname, pat):
+        try:
+            return re.search(pat, open(os.path.join(d, fname)).read()) is not None
+        except OSError:
+            return False
+    feats = []
+    if has('movegen.h', r'\bMAX_PINS\b') or has('movegen.cpp', r'\bMAX_PINS\b'):
+        feats.append('VH_MAX_PINS')
+    if has('movegen.h', r'\bMOVE_LIST\b'):
+        feats.append('VH_MOVE_LIST')
+    if has('search.cpp', r'\bint\s+late_move_reduction\s*\(\s*Depth\b[^)]*,\s*int\b[^)]*\)'):
+        feats.append('VH_LMR_FN')
+    if has('time_manager.cpp', r'\bdouble\s+importance\s*\(\s*double\s+\w+\s*\)'):
+        feats.append('VH_IMPORTANCE_FN')
+    if has('polyglot.h', r'\b_hashmap\b'):
+        feats.append('VH_BOOK_HASHMAP')
+    return feats
+
+
 def build_harness(flavour='san'):
     """Compile engine/*.cpp (minus main.cpp) from the current working tree + harness/cppdrv.cpp.
     Returns (path_to_binary, log).  Raises RuntimeError with the compiler output on failure."""
     flags = BASE_FLAGS + {'san': SAN_FLAGS, 'tsan': TSAN_FLAGS, 'fast': FAST_FLAGS}[flavour]
+    hflags = ['-D' + f for f in harness_features()]
     d, cpps, hdrs = engine_sources()
     hdr_hash = sha(*[read(os.path.join(d, h)) for h in hdrs], *hdrs)
     inc = os.path.join(CACHE, 'inc')
@@ -87,22 +117,48 @@ def build_harness(flavour='san'):
             out, _ = p.communicate()
             log += out
             if p.returncode != 0:
-                raise RuntimeError('engine compile failed:\n' + out[-4000:])
+                raise TieBroken('engine source does not compile with the verification flags:\n' + out[-4000:])
             os.replace(obj + '.tmp', obj)
         hsrc = sorted(os.listdir(HARNESS))
-        hkey = sha(*[read(os.path.join(HARNESS, f)) for f in hsrc], *[os.path.basename(o) for o in objs], ' '.join(flags))
+        hkey = sha(*[read(os.path.join(HARNESS, f)) for f in hsrc], *[os.path.basename(o) for o in objs], ' '.join(flags + hflags))
         exe = os.path.join(CACHE, f'cppdrv.{flavour}.{hkey}')
         if not os.path.exists(exe):
-            cmd = [CXX] + flags + ['-I', d, '-I', inc, '-I', HARNESS, os.path.join(HARNESS, 'cppdrv.cpp')] + objs + ['-o', exe + '.tmp']
+            cmd = [CXX] + flags + hflags + ['-I', d, '-I', inc, '-I', HARNESS, os.path.join(HARNESS, 'cppdrv.cpp')] + objs + ['-o', exe + '.tmp']
             r = run(cmd)
             log += r.stdout
             if r.returncode != 0:
-                raise RuntimeError('harness link failed:\n' + r.stdout[-6000:])
+                raise TieBroken('the harness (harness/cppdrv.cpp) does not compile or link against this tree — an internal it reads has changed:\n' + r.stdout[-6000:])
             os.replace(exe + '.tmp', exe)
         # bound the cache: drop objects/binaries not used for a day when there are many
         prune(objdir, 200)
         prune(CACHE, 12, prefix='cppdrv.')
         return exe, log
+
+
+def build_engine(flavour='san'):
+    """the engine binary itself: engine/main.cpp (its own initialisation order and `Uci` construction) linked with the same
+    objects as the harness.  Used for UCI sessions that must not depend on the harness' main()."""
+    flags = BASE_FLAGS + {'san': SAN_FLAGS, 'tsan': TSAN_FLAGS, 'fast': FAST_FLAGS}[flavour]
+    build_harness(flavour)          # makes sure the engine objects of the current tree exist
+    d, cpps, hdrs = engine_sources()
+    hdr_hash = sha(*[read(os.path.join(d, h)) for h in hdrs], *hdrs)
+    inc = os.path.join(CACHE, 'inc')
+    objdir = os.path.join(CACHE, 'obj')
+    with Lock('build-' + flavour):
+        objs = []
+        for c in cpps:
+            key = sha(read(os.path.join(d, c)), hdr_hash, ' '.join(flags), flavour)
+            objs.append(os.path.join(objdir, f'{c[:-4]}.{flavour}.{key}.o'))
+        msrc = os.path.join(d, 'main.cpp')
+        ekey = sha(read(msrc), hdr_hash, *[os.path.basename(o) for o in objs], ' '.join(flags))
+        exe = os.path.join(CACHE, f'engine.{flavour}.{ekey}')
+        if not os.path.exists(exe):
+            r = run([CXX] + flags + ['-I', d, '-I', inc, msrc] + objs + ['-o', exe + '.tmp'])
+            if r.returncode != 0:
+                raise RuntimeError('engine link failed:\n' + r.stdout[-4000:])
+            os.replace(exe + '.tmp', exe)
+        prune(CACHE, 6, prefix='engine.')
+        return exe
 
 
 def prune(directory, keep, prefix=''):
@@ -171,6 +227,14 @@ def lake_build(targets, timeout=3600):
     with Lock('lake'):
         t0 = time.time()
         r = run(['lake', 'build'] + list(targets), cwd=LEAN, timeout=timeout)
+        return r.returncode == 0, r.stdout, time.time() - t0
+
+
+def leanchecker(module, timeout=3600):
+    """independent re-check of the compiled module (one module per call)"""
+    with Lock('lake'):
+        t0 = time.time()
+        r = run(['lake', 'env', 'leanchecker', module], cwd=LEAN, timeout=timeout)
         return r.returncode == 0, r.stdout, time.time() - t0
 
 
